@@ -215,7 +215,8 @@ def run_shard(spec, ctx):
         return
     if gen == "cmdexh":
         heads = [b"cmd", b"cmd /c x", b"c^m^d "]
-        embeds = [(b"", b""), (b"hello (", b") bye"), (b'"', b'" z'), (b"for /f %i in ('", b"') do x"), (b"zz ", b"\x00cmd /c q)")]
+        embeds = [(b"", b""), (b"hello (", b") bye"), (b'"', b'" z'), (b"for /f %i in ('", b"') do x"), (b"zz ", b"\x00cmd /c q)"),
+                  (b"if exist a (", b") else e^cho x")]
         idx = 0
         for head in heads:
             for tail in base.tails(A9, spec["L"]):
@@ -244,7 +245,8 @@ def run_shard(spec, ctx):
             expect = shellgen.encoded_invocation(r)
             data = expect["data"]
         elif gen == "psplain":
-            data = shellgen.plain_invocation(r) if r.random() < 0.7 else base.mutate(r, shellgen.plain_invocation(r), seeds)
+            x = r.random()
+            data = shellgen.plain_invocation(r) if x < 0.6 else (shellgen.two_invocations(r) if x < 0.8 else base.mutate(r, shellgen.plain_invocation(r), seeds))
         else:
             _, data, _ = next(it)
         case = {"kind": "text", "data": runner.hx(data)}
